@@ -204,6 +204,9 @@ pub fn gen_workspace2(rng: &mut Rng, rich: bool, max_patches: usize, allow_fail:
     let mut tree = Snap::new();
     for (n, f) in &gt { tree.insert(n.as_bytes().to_vec(), Entry::File(f.mode & 0o7777, f.lines.concat())); }
     if rng.chance(10) { tree.insert(b"emptydir".to_vec(), Entry::Dir); }
+    // (rarely) an EMPTY directory the series may create files in: if one invocation creates a file there and removes it
+    // again, the directory's fate is the known finding empty-dir-kept; everything else about such a tree must hold
+    if rng.chance(2) && !gt.keys().any(|k| k.starts_with("d/")) { tree.insert(if rng.chance(50) { b"d".to_vec() } else { b"d/e".to_vec() }, Entry::Dir); }
     // (rarely) a directory where a reject file would have to go: writing that reject fails for real
     if rng.chance(2) { if let Some(n) = gt.keys().next().cloned() { tree.insert(format!("{}.rej", n).into_bytes(), Entry::Dir); } }
     let np = 1 + rng.below(max_patches);
